@@ -37,6 +37,8 @@ LEMMAS = [
     LEMMA("SLICE_TAIL", {"d": "bytes", "p": "int", "q": "int"}, ["0 <= p < q <= len(d)"],
           "d[p:q][1:] == d[p + 1:q] and d[p:q][0] == d[p] and len(d[p:q]) == q - p",
           props=["C08", "C10", "C17"], notes="pure sequence fact used to unfold head-first spec functions on slices"),
+    LEMMA("SLICE_CONCAT", {"d": "bytes", "p": "int", "q": "int", "r": "int"}, ["0 <= p <= q <= r <= len(d)"],
+          "d[p:q] + d[q:r] == d[p:r]", props=["C08", "C10", "C17"], notes="pure sequence fact"),
     LEMMA("VLEN_UNIQUE", {"s": "bytes", "k": "int"}, ["1 <= k <= len(s)", "VWF(s[:k])"], "VLEN(s) == k",
           measure="k", ih=[("k > 1", {"s": "s[1:]", "k": "k - 1"})],
           props=["C16", "C08", "C10", "C17"],
